@@ -41,18 +41,23 @@ NoneElem  == 0 - 9                                        \* a list element that
 VElem(n)  == IF n = NoneElem THEN VNone ELSE VInt(n)
 \* the first falsifying element of a failed all(<generator>): shown as "was False, e.g., with e = <element>"
 VAllFail(n) == [t |-> "allfail", n |-> n, s |-> <<>>]
+\* a class object (the result of type(..)): 1 int, 2 bool, 3 NoneType, 4 list, 5 the harness's Obj class
+VCls(n)   == [t |-> "cls", n |-> n, s |-> <<>>]
+ClsOfVal(v) == CASE v.t = "int" -> 1 [] v.t = "bool" -> 2 [] v.t = "none" -> 3 [] v.t = "list" -> 4 [] v.t = "obj" -> 5
+                 [] v.t = "cls" -> 6
 VNumeric(v) == v.t \in {"int", "bool"}
 Truthy(v) == CASE v.t = "int" -> v.n # 0 [] v.t = "bool" -> v.n = 1 [] v.t = "none" -> FALSE
-               [] v.t = "list" -> v.s # <<>> [] v.t = "obj" -> TRUE [] v.t = "allfail" -> FALSE
+               [] v.t = "list" -> v.s # <<>> [] v.t = "obj" -> TRUE [] v.t = "allfail" -> FALSE [] v.t = "cls" -> TRUE
 \* Python equality
 PyEq(a, b) == IF VNumeric(a) /\ VNumeric(b) THEN a.n = b.n
               ELSE IF a.t = "list" /\ b.t = "list" THEN a.s = b.s
               ELSE IF a.t = "none" /\ b.t = "none" THEN TRUE
               ELSE IF a.t = "obj" /\ b.t = "obj" THEN a.n = b.n     \* same object (one object per attribute value)
+              ELSE IF a.t = "cls" /\ b.t = "cls" THEN a.n = b.n
               ELSE FALSE
 
 Arity(k) == CASE k \in {"int", "none", "true", "false", "name"} -> 0
-              [] k \in {"not", "neg", "ident", "len", "first", "attr", "isnone", "all_gt", "all_pos", "sum_star", "comp"} -> 1
+              [] k \in {"not", "neg", "ident", "len", "first", "attr", "isnone", "all_gt", "all_pos", "sum_star", "comp", "typeof"} -> 1
               [] k \in {"add", "floordiv", "and", "or", "lt", "eq", "in"} -> 2
               [] k \in {"ifexp", "lt2", "and3", "or3"} -> 3
 
@@ -115,6 +120,7 @@ Unary(k, v) ==
                          ELSE IF \E i \in DOMAIN v.s : v.s[i] = NoneElem THEN Exc("TypeError")
                          ELSE Ok(VInt(SumSeq(v.s, 1)))
     [] k = "comp" -> IF v.t = "list" THEN Ok(v) ELSE Exc("TypeError")
+    [] k = "typeof" -> Ok(VCls(ClsOfVal(v)))      \* type(<c>): a call whose result is a class object
     [] k = "neg" -> IF VNumeric(v) THEN Ok(VInt(0 - v.n)) ELSE Exc("TypeError")
     [] k = "ident" -> Ok(v)
     [] k = "len" -> IF v.t = "list" THEN Ok(VInt(Len(v.s))) ELSE Exc("TypeError")
@@ -299,7 +305,7 @@ RecChain(p) ==
 -----------------------------------------------------------------------------
 (* What the message shows: names, attributes, calls and subscripts that got *)
 (* a recorded value (icontract/_represent.py).                              *)
-ShownKind(k) == k \in {"name", "ident", "len", "first", "attr", "all_gt", "all_pos", "sum_star", "comp"}
+ShownKind(k) == k \in {"name", "ident", "len", "first", "attr", "all_gt", "all_pos", "sum_star", "comp", "typeof"}
 PyRes  == Eval(1)
 RecRes == Rec(1)
 Shown  == {pv \in RecRes.val : pv[1] = 0 \/ ShownKind(Expr[pv[1]].k)}
